@@ -50,9 +50,6 @@ pub fn flat_sig(case: &E2Case, outcome: &CaseOutcome) -> Option<String> {
         // into_existing into a tuple-form intermediate struct writes other.<path>.<running index> (restarting at every
         // non-contiguous group) instead of the index the member instruction names
         CaseOutcome::CompileFail { code, .. } if (code == "E0308" || code == "E0609" || code == "E0610") && has("tuple-node") && has("into-existing-requested") => Some("into-existing-tuple-node-ignores-index-rename".into()),
-        // a tuple struct S with interleaved children: From sorts the members by group and fills S(..) positionally in that order
-        CaseOutcome::Mismatch { flavour, .. } if flavour.contains("from") && (has("interleaved") || has("split-path-groups")) && has("S:tuple") => Some("tuple-struct-from-reorders-interleaved-children".into()),
-        CaseOutcome::CompileFail { code, .. } if code == "E0308" && (has("interleaved") || has("split-path-groups")) && has("S:tuple") && has("from-requested") => Some("tuple-struct-from-reorders-interleaved-children".into()),
         CaseOutcome::Mismatch { flavour, .. } if flavour.contains("existing") && has("tuple-node") => Some("into-existing-tuple-node-ignores-index-rename".into()),
         _ => None,
     }
